@@ -4,6 +4,7 @@ import (
 	"fmt"
 	"sort"
 	"strconv"
+	"strings"
 	"sync"
 
 	"verif/drv"
@@ -162,6 +163,9 @@ func C12(run *ev.Run, tier string) map[string]interface{} {
 					{"SET+", "SET a = a + :n", dx.Add(dy), f64(x) + f64(y)},
 					{"SET-", "SET a = a - :n", dx.Sub(dy), f64(x) - f64(y)},
 					{"ADD", "ADD a :n", dx.Add(dy), f64(x) + f64(y)},
+					// a second clause copies the number the first one adds to: the copy is the pre-update value
+					{"ADD+copy", "SET b = a ADD a :n", dx.Add(dy), f64(x) + f64(y)},
+					{"copy+SET+", "SET b = a, a = a + :n", dx.Add(dy), f64(x) + f64(y)},
 				} {
 					if c.exact.Digits() > 38 {
 						continue // outside DynamoDB's precision: no demand
@@ -186,6 +190,13 @@ func C12(run *ev.Run, tier string) map[string]interface{} {
 						// attribute whose double value did not change keeps its stored text)
 						explained := f64(got.S) == c.fl
 						run.Report(fmt.Sprintf("C12|arith|explained-by-float64=%v", explained), fmt.Sprintf("%s with a=%s :n=%s: want %s got %s", c.expr, x, y, c.exact.Plain(), got.S), map[string]interface{}{"expression": c.expr, "a": x, "n": y})
+					}
+					if strings.Contains(c.name, "copy") {
+						b := after["b"]
+						if bd, err := val.ParseDec(b.S); b.T != "N" || err != nil || bd.Cmp(dx) != 0 {
+							explained := b.T == "N" && err == nil && f64(b.S) == f64(x)
+							run.Report(fmt.Sprintf("C12|arith-copy|explained-by-float64=%v", explained), fmt.Sprintf("%s with a=%s :n=%s: b must be the pre-update value %s, got %s", c.expr, x, y, x, b.CanonText()), map[string]interface{}{"expression": c.expr, "a": x, "n": y})
+						}
 					}
 					if out.O == "T" {
 						for k, want := range nested {
